@@ -28,8 +28,14 @@ def run(ctx):
     q = ctx.quick
     vlib.mc(ctx, "MCPacker.tla", "MCPackerTyped.cfg", workers=4, timeout=900)
     vlib.mc(ctx, "MCPacker.tla", "MCPackerPlain.cfg", workers=4, timeout=900)
+    # TreeStreamerOnce (caller + loader threads, unbounded id queue, bounded tree queue): every tree once, counters exact,
+    # no deadlock, termination under fairness - over all forests; a bounded id queue deadlocks on a wide directory
+    vlib.mc(ctx, "MCStreamer.tla", "MCStreamer.cfg", workers=4, timeout=900, must_cover=("Push", "Yield", "Send", "Finish"))
+    r = vlib.tlc("MCStreamer.tla", "MCStreamerBounded.cfg", workers=1, timeout=300, metadir=os.path.join(ctx.out, "mc-bad"))
+    ctx.negative_control("Deadlock reached" in r.out, "model: a bounded id queue must deadlock on a wide directory")
     if not q:
         vlib.mc(ctx, "MCPacker.tla", "MCPackerBig.cfg", workers=8, timeout=3000)
+        vlib.mc(ctx, "MCStreamer.tla", "MCStreamerBig.cfg", workers=8, timeout=3000)
     nscen, nsched = (3, 6) if q else (40, 36)
     merged = {}
     for th in ("1", "2", "8"):
